@@ -135,7 +135,8 @@ def run(ctx):
     # result may point into the parser's buffer (fast path of C07, zero-copy clause here); spans as the model predicts
     rl = ['rp ' + ' '.join(c07.random_history(rng)) for _ in range(4000 if ctx.thorough else 800)] + common.cg_lines(ctx, ('rp ',))
     impl, model = ctx.run_both(rl)
-    for ln, a, b in zip(rl, impl, model):
+    want = c07.reference_run(ctx, [ln.split(' ')[1:] for ln in rl])
+    for ln, a, b, w in zip(rl, impl, model, want):
         ra, side = core.split_side(a)
         prev = '0'
         for k, st in enumerate(ra.split(' ; ')):
@@ -150,9 +151,12 @@ def run(ctx):
             prev = parts[1]
         if 'X:' in ra or side.get('remptr') == 'bad':
             ctx.violation('defragmenter result references memory outside the record and the buffer: %s' % ra[:200], {'lines': [ln]}, key='rp:X')
+        elif c07.norm_steps(ra) != w:
+            # spans / results differ from "accumulate, refuse, reset" around the code's own one-shot parser (C07's reference)
+            ctx.cov['impl_vs_oracle_failures'] += 1
+            ctx.violation('slices of a history differ from accumulate-then-parse around parse_tls_record_with_header itself: implementation "%s", reference "%s"' % (ra[:200], w[:200]), {'lines': [ln], 'impl': ra, 'expect_steps': w[:3000]}, key='ref:rp')
         elif [c07.proj_step(x) for x in ra.split(' ; ')] != [c07.proj_step(x) for x in b.split(' ; ')]:
-            ctx.cov['model_vs_impl_disagreements'] += 1
-            ctx.violation('correspondence (spans of a history) broken on %s: implementation "%s", model "%s"' % (ln[:100], ra[:200], b[:200]), {'lines': [ln], 'impl': ra, 'model': b}, found_input=False, key='corr:rp')
+            ctx.cov['drift'] += 1      # only the model's one-shot payload parser answers differently: C03 / C04 matter
     common.lean_failure_violation(ctx, ok)
     return ctx.finish(LEVEL,
         rule='every self-delimiting op on well-formed (independent encoder) and length-corrupted inputs, each re-run with a suffix (random bytes / a copy of the structure itself / a record header): value unchanged and remainder extended on success, outcome class unchanged on non-Incomplete failure, every span of the value inside the consumed prefix, no slice outside the input (X:), remainder pointer = input + consumed; single extensions of every known type with arbitrary content of every small declared length through the three dispatchers and the 16 single-purpose parsers (outcome class and value independent of what follows); spans equal to those of the model run on position-tagged bytes; defragmenter histories: spans in the record (@) or the buffer (B@) exactly as accumulate-then-parse predicts; arbitrary op sequences: an idle parser answers a parsable record from the record itself, spans as the model; distinct = (op, outcome shape)',
